@@ -47,6 +47,9 @@ def expand(b, rnd, norders):
                      writes=sorted(b['writes']), acc={m: accmode for m in mods}, exported=mods,
                      host=b.get('host') or {m: m for m in mods})
             out.append(c)
+            if accmode != 'never' and any(b['att'][m] for m in mods):
+                # the same with the attachments fixed by a subclass (bare class attribute) instead of the configuration
+                out.append(dict(c, fixed=[m for m in mods if b['att'][m]]))
             if accmode != 'init':
                 # the same with attachments declared optional (mandatory=False) and given in the configuration
                 out.append(dict(c, opt=True))
